@@ -60,7 +60,30 @@ enum Fp {
     Correct,
     Absent,
     Wrong,
+    /// a string that is NOT the genuine digest but close to it (index into near_misses())
+    Near(u8),
 }
+
+/// expected-fingerprint strings derived from the genuine digest that must all count as mismatching
+fn near_misses(genuine: &str) -> Vec<(&'static str, String)> {
+    let flip = |i: usize| {
+        let mut b = genuine.as_bytes().to_vec();
+        b[i] = if b[i] == b'0' { b'1' } else { b'0' };
+        String::from_utf8(b).unwrap()
+    };
+    vec![
+        ("empty", String::new()),
+        ("first-byte-only", genuine[..2].to_string()),
+        ("31-of-32-bytes", genuine[..genuine.len() - 3].to_string()),
+        ("one-byte-appended", format!("{genuine}:00")),
+        ("last-digit-altered", flip(genuine.len() - 1)),
+        ("first-digit-altered", flip(0)),
+        ("middle-digit-altered", flip(46)),
+        ("with-algorithm-prefix-of-another-digest", format!("sha-256 {}", flip(0))),
+        ("colons-only", ":".repeat(31)),
+    ]
+}
+const NEAR_MISSES: u8 = 9;
 
 #[derive(Clone, Debug)]
 struct Scenario {
@@ -321,7 +344,14 @@ fn fp_of(which: Fp, genuine: &dtls::Certificate) -> Option<String> {
         Fp::Correct => Some(dtls::fingerprint(genuine)),
         Fp::Absent => None,
         Fp::Wrong => Some(dtls::fingerprint(&sim::certs().x)),
+        Fp::Near(i) => Some(near_misses(&own_fingerprint(&genuine.certificate[0]))[i as usize].1.clone()),
     }
+}
+
+/// the harness's own rendering of a certificate digest (not the repository's helper)
+fn own_fingerprint(der: &[u8]) -> String {
+    use sha2::Digest;
+    sha2::Sha256::digest(der).iter().map(|b| format!("{b:02X}")).collect::<Vec<_>>().join(":")
 }
 
 fn now_ms(start: tokio::time::Instant) -> u64 {
@@ -467,7 +497,118 @@ fn run(sc: &Scenario, seed: u64) -> Option<Obs> {
 
 // ------------------------------------------------------------------ scripted attacker server
 
-use vh::dtls_attacker::{ScriptedServer, Step};
+use vh::dtls_attacker::{ScriptedServer, SigKind, Step, SIG_KINDS};
+
+/// token <-> step for the GENERATED script space (names are "g:" + tokens joined by ',')
+fn alphabet() -> Vec<(String, Step)> {
+    let b = sim::certs().b.certificate[0].clone();
+    let x = sim::certs().x.certificate[0].clone();
+    let mut v = vec![
+        ("B".to_string(), Step::Certificate(vec![b.clone()])),
+        ("X".to_string(), Step::Certificate(vec![x.clone()])),
+        ("KE".to_string(), Step::KeyExchange),
+        ("HKE".to_string(), Step::HonestKeyExchange),
+        ("SH2".to_string(), Step::ServerHelloAgain),
+        ("[B+X]".to_string(), Step::Certificate(vec![b.clone(), x.clone()])),
+        ("[X+B]".to_string(), Step::Certificate(vec![x.clone(), b.clone()])),
+        ("SHD".to_string(), Step::HelloDone),
+        ("[]".to_string(), Step::Certificate(vec![])),
+        ("KE[curve=24]".to_string(), Step::KeyExchangeLabelled { curve_type: 3, named_curve: 24 }),
+    ];
+    for alg in SIG_ALGS {
+        for sig in SIG_KINDS {
+            v.push((format!("KE{{{}.{};{sig:?}}}", alg.0, alg.1), Step::KeyExchangeCustom { alg: *alg, sig: *sig }));
+        }
+    }
+    v
+}
+
+/// signature-algorithm labels: ecdsa_secp256r1_sha256 (the honest one), ed25519, rsa_pkcs1_sha256,
+/// anonymous/none, ecdsa_sha1, ecdsa_sha512, undefined
+const SIG_ALGS: &[(u8, u8)] = &[(4, 3), (8, 7), (4, 1), (0, 0), (2, 3), (6, 3), (255, 255)];
+
+/// the letters the sequence generator uses (indices into alphabet()): the first `core` ones for the
+/// deepest level, all of GEN_LETTERS below it
+const GEN_LETTERS: &[&str] = &["B", "X", "KE", "HKE", "SH2", "[B+X]", "[X+B]", "SHD", "[]", "KE[curve=24]", "KE{4.3;ZeroDer}", "KE{8.7;AttackerDer}"];
+
+fn script_from_name(name: &str) -> Option<Vec<Step>> {
+    let al = alphabet();
+    let body = name.strip_prefix("g:")?;
+    if body.is_empty() {
+        return Some(vec![]);
+    }
+    body.split(',').map(|t| al.iter().find(|(n, _)| n == t).map(|(_, s)| s.clone())).collect()
+}
+
+/// every sequence over the first `letters` generator letters of length 1..=max_len
+fn generated_scripts(letters: usize, max_len: usize, min_len: usize) -> Vec<(String, Vec<Step>)> {
+    let al = alphabet();
+    let pick: Vec<(String, Step)> = GEN_LETTERS[..letters].iter().map(|t| al.iter().find(|(n, _)| n == t).cloned().expect("letter")).collect();
+    let mut out = vec![];
+    let mut cur: Vec<usize> = vec![];
+    fn rec(pick: &[(String, Step)], cur: &mut Vec<usize>, max_len: usize, min_len: usize, out: &mut Vec<(String, Vec<Step>)>) {
+        if cur.len() >= min_len && !cur.is_empty() {
+            out.push((format!("g:{}", cur.iter().map(|i| pick[*i].0.as_str()).collect::<Vec<_>>().join(",")), cur.iter().map(|i| pick[*i].1.clone()).collect()));
+        }
+        if cur.len() == max_len {
+            return;
+        }
+        for i in 0..pick.len() {
+            cur.push(i);
+            rec(pick, cur, max_len, min_len, out);
+            cur.pop();
+        }
+    }
+    rec(&pick, &mut cur, max_len, min_len, &mut out);
+    out
+}
+
+/// the signature block: genuine certificate, the attacker's share, every algorithm label x every blob
+fn signature_scripts() -> Vec<(String, Vec<Step>)> {
+    let mut out = vec![];
+    for alg in SIG_ALGS {
+        for sig in SIG_KINDS {
+            if *alg == (4, 3) && *sig == SigKind::AttackerDer {
+                continue; // == KE
+            }
+            let t = format!("KE{{{}.{};{sig:?}}}", alg.0, alg.1);
+            for pre in ["B", "B,HKE", "B,KE", "X,B", "[B+X]"] {
+                let name = format!("g:{pre},{t}");
+                let sc = script_from_name(&name).expect("name");
+                out.push((name, sc));
+            }
+        }
+    }
+    out
+}
+
+/// Sound oracle for ANY script: the attacker holds only X's key, so (a) a client expecting B must
+/// never connect (to complete the handshake the client must have used a share B never signed);
+/// (b) a client expecting X may connect only if X was presented as a leaf certificate at all.
+fn judge_generated(name: &str, script: &[Step], fp: Fp, o: &SObs) -> Vec<(String, String)> {
+    let mut out = vec![];
+    if fp == Fp::Absent {
+        return out;
+    }
+    let x = &sim::certs().x.certificate[0];
+    let x_shown = script.iter().any(|s| matches!(s, Step::Certificate(c) if c.first() == Some(x)));
+    let may_connect = fp == Fp::Wrong && x_shown;
+    if o.state == "Connected" && !may_connect {
+        out.push((format!("role=client;connected_to_unauthenticated_peer;fp={fp:?};server-script={name}"), format!("client reached Connected against a server that only holds the attacker's key (script {name}); exporter_ok={}, application payloads accepted={}", o.exporter_ok, o.app_rx)));
+    }
+    if o.state != "Connected" {
+        if o.state != "Failed" {
+            out.push((format!("role=client;not_failed({});fp={fp:?};server-script={name}", o.state), format!("after {} virtual ms", o.end_ms)));
+        }
+        if o.app_rx > 0 {
+            out.push((format!("role=client;app_data_accepted_without_connection;server-script={name}"), format!("{} payloads", o.app_rx)));
+        }
+        if o.exporter_ok {
+            out.push((format!("role=client;keying_material_exported_without_connection;server-script={name}"), String::new()));
+        }
+    }
+    out
+}
 
 fn scripts() -> Vec<(&'static str, Vec<Step>)> {
     let b = sim::certs().b.certificate[0].clone();
@@ -664,6 +805,7 @@ fn sc_from(r: &serde_json::Value) -> Scenario {
     let f = |s: &str| match s {
         "Correct" => Fp::Correct,
         "Absent" => Fp::Absent,
+        n if n.starts_with("Near(") => Fp::Near(n[5..n.len() - 1].parse().unwrap_or_else(|_| vh::machinery_failure("bad Near"))),
         _ => Fp::Wrong,
     };
     Scenario { ops, fp_a: f(r["fp_client_expects"].as_str().unwrap()), fp_b: f(r["fp_server_expects"].as_str().unwrap()) }
@@ -677,14 +819,19 @@ fn main() {
         let v: serde_json::Value = serde_json::from_str(&std::fs::read_to_string(path).unwrap_or_else(|e| vh::machinery_failure(&format!("{e}")))).unwrap();
         if let Some(name) = v["replay"]["scripted"].as_str() {
             let list = scripts();
-            let (_, script) = list.iter().find(|(n, _)| *n == name).unwrap_or_else(|| vh::machinery_failure("unknown script"));
+            let gen_script = script_from_name(name);
+            let generated = gen_script.is_some();
+            let script: &Vec<Step> = match &gen_script {
+                Some(s) => s,
+                None => &list.iter().find(|(n, _)| *n == name).unwrap_or_else(|| vh::machinery_failure("unknown script")).1,
+            };
             let fp = match v["replay"]["fp_client_expects"].as_str().unwrap_or("") {
                 "Correct" => Fp::Correct,
                 "Absent" => Fp::Absent,
                 _ => Fp::Wrong,
             };
             let o = run_scripted(script, fp, cli.seed);
-            let vs = o.as_ref().map(|o| judge_scripted(name, script, fp, o));
+            let vs = o.as_ref().map(|o| if generated { judge_generated(name, script, fp, o) } else { judge_scripted(name, script, fp, o) });
             println!("{o:?}\n verdicts={vs:?}");
             std::process::exit(if vs.map_or(true, |v| !v.is_empty()) { 1 } else { 0 });
         }
@@ -714,6 +861,16 @@ fn main() {
                 scenarios.push(Scenario { ops: vec![*op], fp_a: fa, fp_b: fb });
             }
         }
+    }
+    // near-miss expected fingerprints against an untouched genuine handshake, and against the MITM that
+    // presents the genuine certificate
+    for i in 0..NEAR_MISSES {
+        scenarios.push(Scenario { ops: vec![Op::None], fp_a: Fp::Near(i), fp_b: Fp::Absent });
+        scenarios.push(Scenario { ops: vec![Op::FullMitmStolenCertificate], fp_a: Fp::Near(i), fp_b: Fp::Absent });
+    }
+    if own_fingerprint(&sim::certs().b.certificate[0]) != dtls::fingerprint(&sim::certs().b) {
+        // not a machinery matter: the repository's own digest rendering differs from SHA-256 of the DER
+        rep.violation(vh::Violation { signature: "fingerprint-helper-is-not-sha256-of-der".into(), detail: format!("{} vs {}", dtls::fingerprint(&sim::certs().b), own_fingerprint(&sim::certs().b.certificate[0])), replay: json!({"helper": "dtls::fingerprint"}) });
     }
     let singles = scenarios.len();
     if thorough {
@@ -783,11 +940,48 @@ fn main() {
             rep.violation(vh::Violation { signature: sig, detail, replay: replay.clone() });
         }
     }
+    // generated script space: every sequence over the step alphabet up to a length, plus the signature block
+    let mut gen_list = generated_scripts(GEN_LETTERS.len(), if thorough { 4 } else { 3 }, 1);
+    if thorough {
+        gen_list.extend(generated_scripts(8, 5, 5));
+        gen_list.extend(generated_scripts(6, 6, 6));
+    } else {
+        gen_list.extend(generated_scripts(8, 4, 4));
+    }
+    gen_list.extend(signature_scripts());
+    let gen_cases: Vec<(usize, Fp)> = (0..gen_list.len()).flat_map(|i| [Fp::Correct, Fp::Wrong].into_iter().map(move |f| (i, f))).collect();
+    let gen_results: Vec<((usize, Fp), Option<SObs>)> = gen_cases.par_iter().map(|c| (*c, run_scripted(&gen_list[c.0].1, c.1, cli.seed))).collect();
+    let (mut gen_connected, mut gen_failed) = (0u64, 0u64);
+    for ((i, fp), o) in &gen_results {
+        let (name, script) = &gen_list[*i];
+        let replay = json!({"scripted": name, "fp_client_expects": format!("{fp:?}")});
+        let Some(o) = o else {
+            rep.violation(vh::Violation { signature: format!("livelock;server-script={name}"), detail: "watchdog fired".into(), replay });
+            continue;
+        };
+        if o.state == "Connected" {
+            gen_connected += 1;
+        } else {
+            gen_failed += 1;
+        }
+        outcomes.insert(format!("generated|{}|{}|{}", o.state, o.exporter_ok, o.app_rx));
+        for (sig, detail) in judge_generated(name, script, *fp, o) {
+            rep.violation(vh::Violation { signature: sig, detail, replay: replay.clone() });
+        }
+    }
+    if gen_connected == 0 || gen_failed == 0 {
+        vh::machinery_failure(&format!("generated script space is vacuous: connected={gen_connected} failed={gen_failed}"));
+    }
+    rep.set("generated_server_scripts", gen_list.len() as u64);
+    rep.set("generated_script_histories", gen_cases.len() as u64);
+    rep.set("generated_script_histories_connected_to_the_expected_attacker", gen_connected);
+    rep.set("generated_script_histories_failed", gen_failed);
+    rep.set("near_miss_fingerprint_histories", 2 * NEAR_MISSES as u64);
     if !control_connected {
         vh::machinery_failure("scripted attacker self-test failed: a client expecting the attacker's own fingerprint did not connect to it");
     }
     rep.set("scripted_server_histories", sc_cases.len() as u64);
-    let total = scenarios.len() as u64 + sc_cases.len() as u64;
+    let total = scenarios.len() as u64 + sc_cases.len() as u64 + gen_cases.len() as u64;
     rep.set("states", total);
     rep.set("transitions", results.iter().map(|(_, o)| o.as_ref().map(|o| o.tampered as u64 + 1).unwrap_or(0)).sum::<u64>());
     rep.set("traces_validated_against_impl", total);
